@@ -141,6 +141,7 @@ def run(ctx):
             rp.violation(sig, what, inp, a, lambda o, pb=pb: "panic" not in o and canon(proj(o)) != canon(pb), extra={"source_says": b})
     ctx.cov["replay_isolation"] = dict(rp.stats)
     ctx.cov["second_variable_map"] = rebind_stats(inputs, impl)
+    ctx.cov["focused_shapes"] = focus_stats(inputs, impl)
     for inp in inputs:
         a = impl.get(inp["id"], {})
         f = features(inp)
